@@ -3,23 +3,46 @@
 import json, re, sys, os
 V = os.path.dirname(os.path.dirname(os.path.abspath(__file__)))
 rows = []
-for l in open(sys.argv[1]):
+# rows of the existing table are kept for changes that the given result files do not mention
+# (the result files of earlier rounds are not kept; re-run seeded/run.sh to refresh a row)
+old_rows = {}
+try:
+    for l in open(f'{V}/seeded/RESULTS.md'):
+        m = re.match(r'\| (C\d+-\d+) \| (C\d+) \| ([^|]+) \| ([^|]*) \| `(.*)` \| (.*) \|$', l.rstrip('\n'))
+        if m:
+            old_rows[m.group(1)] = tuple(x.strip() if i != 4 else x for i, x in enumerate(m.groups()))
+except FileNotFoundError:
+    pass
+import itertools
+for l in itertools.chain.from_iterable(open(f, errors='replace') for f in sys.argv[1:]):
     m = re.match(r'SEEDED (\S+) \((C\d+)\): (\S+)(.*)', l)
     if not m:
         continue
     name, prop, res, rest = m.groups()
     eng = re.search(r'engine=(\S+)', rest)
     sig = re.search(r'sig=(.+?) count=', rest)
+    if not os.path.isdir(f'{V}/seeded/{name}'):
+        continue
     meta = json.load(open(f'{V}/seeded/{name}/meta.json'))
     summ = (meta.get('summary') or '').replace('\n', ' ').replace('|', '/')
     summ = summ[:230] + ('…' if len(summ) > 230 else '')
     row = (name, prop, res, eng.group(1) if eng else '', sig.group(1) if sig else '', summ)
+    if not os.path.isdir(f'{V}/seeded/{name}'):
+        continue
     prev = [i for i, r in enumerate(rows) if r[0] == name]
-    if prev:  # a second line for the same change comes from a thorough-tier run of run.sh
-        if rows[prev[0]][2] == 'MISSED' and res == 'DETECTED':
-            rows[prev[0]] = (name, prop, 'MISSED by quick, DETECTED by thorough', row[3], row[4], summ)
+    if prev:  # a later line for the same change is a re-run against strengthened checks
+        if rows[prev[0]][2] != 'DETECTED' and res == 'DETECTED':
+            rows[prev[0]] = (name, prop, 'DETECTED (missed by the checks as they were when the change arrived)', row[3], row[4], summ)
         continue
     rows.append(row)
+have = {r[0] for r in rows}
+for name, r in old_rows.items():
+    if name not in have and os.path.isdir(f'{V}/seeded/{name}'):
+        rows.append(r)
+def key(r):
+    a, b = r[0].split('-')
+    return (a, int(b))
+rows.sort(key=key)
 out = ['# Independent seeded changes vs. the quick checks', '',
        'Produced by `seeded/run.sh` + `tools/seeded_results.py` (each patch applied to a scratch copy of /repo, never to /repo; quick tier, VERIF_SEED=1).',
        'Each change was written by a fresh sub-agent that saw only the property text and its own worktree; `meta.json` in each',
@@ -28,4 +51,4 @@ out = ['# Independent seeded changes vs. the quick checks', '',
 for r in rows:
     out.append('| %s | %s | %s | %s | `%s` | %s |' % r)
 open(f'{V}/seeded/RESULTS.md', 'w').write('\n'.join(out) + '\n')
-print(len(rows), 'rows;', sum(1 for r in rows if r[2] == 'DETECTED'), 'detected by quick')
+print(len(rows), 'rows;', sum(1 for r in rows if r[2].startswith('DETECTED')), 'detected by quick;', [r[0] for r in rows if not r[2].startswith('DETECTED')], 'not detected')
